@@ -317,6 +317,15 @@ func TestVerifC20(t *testing.T) {
 					}
 				}()
 			}
+			for k := 0; k < 4; k++ {
+				wg.Add(1)
+				go func() {
+					defer wg.Done()
+					for ctx.Err() == nil {
+						ov.do("page:/config", func() { c.private("GET", "/config", n.password, nil, nil) })
+					}
+				}()
+			}
 			time.Sleep(20 * time.Millisecond)
 			atomic.StoreInt32(&api.VerifStall, 1)
 			ov.do("restore", func() { n.raft.Restore(meta, rc, 10*time.Second) })
